@@ -29,8 +29,9 @@ let () =
         Printf.printf "table_palette %s\n" (String.concat " " (uniq (List.map token lock_table_palette)));
         Printf.printf "ranked %s %s\n" (b2s (respects_rank lock_table)) (b2s (respects_rank lock_table_palette))
     | ["cycles"; n] ->
-        let s = th_run (th_cycles (nat_of_int (int_of_string n))) in
-        Printf.printf "cycles %s zombies=%d live=%d\n" n (int_of_nat (th_zombie s)) (int_of_nat (th_live s))
+        let k = nat_of_int (int_of_string n) in
+        let s = th_run false (th_cycles k) and f = th_run true (th_cycles k) in
+        Printf.printf "cycles %s zombies=%d live=%d zombies_with_fix6=%d\n" n (int_of_nat (th_zombie s)) (int_of_nat (th_live s)) (int_of_nat (th_zombie f))
     | ["witness"] ->
         let c = run (cur_step false) cur_witness cur_init in
         Printf.printf "witness cursor final=%s burned=%s\n" (b2s (cur_final c)) (b2s (cu_fb c));
@@ -44,12 +45,16 @@ let () =
         Printf.printf "witness shutdown_repaired finishes=%s gone=%d\n" (b2s (sh_final r2)) (int_of_nat (sh_gone r2));
         let j = run (sj_step false) sj_witness sj_init in
         Printf.printf "witness shutdown_join freed=%s uaf=%s\n" (b2s (sj_freed j)) (b2s (sj_uaf j));
-        let e = run (sh_step_cfg cfg_selfail) sh_selfail_witness sh_init in
-        let en = List.exists (fun t -> enabled (sh_step_cfg cfg_selfail) (nat_of_int t) e) [1; 2] in
+        let e = run (sh_step_cfg cfg_before_86ddb5d) sh_selfail_witness sh_init in
+        let en = List.exists (fun t -> enabled (sh_step_cfg cfg_before_86ddb5d) (nat_of_int t) e) [1; 2] in
         Printf.printf "witness select_failure shut=%s gone=%d input_pc=%d output_waits=%s client_thread_enabled=%s\n"
           (b2s (sh_shut e)) (int_of_nat (sh_gone e)) (int_of_nat (sh_pcI e)) (b2s (sh_wait e)) (b2s en);
-        let f = run (sh_step_cfg cfg_selfail_fixed) (sh_selfail_witness @ sh_finishing) sh_init in
-        Printf.printf "witness select_failure_fixed finishes=%s gone=%d\n" (b2s (sh_final f)) (int_of_nat (sh_gone f));
+        let f = run (sh_step true) (sh_selfail_witness @ sh_finishing) sh_init in
+        Printf.printf "witness select_failure_head finishes=%s gone=%d\n" (b2s (sh_final f)) (int_of_nat (sh_gone f));
+        let l = run (rc_step false false) rc_leak_witness rc_init in
+        Printf.printf "witness thread_reclaim_head final=%s reclaimed=%d\n" (b2s (rc_final l)) (int_of_nat (rc_reclaimed l));
+        let l6 = run (rc_step true false) (rc_leak_witness @ rc_finishing) rc_init in
+        Printf.printf "witness thread_reclaim_fix6 final=%s reclaimed=%d joined=%d detached=%s bad=%s\n" (b2s (rc_final l6)) (int_of_nat (rc_reclaimed l6)) (int_of_nat (rc_joined l6)) (b2s (rc_detached l6)) (b2s (rc_bad l6));
         let n0 = run (nf_step false (nat_of_int 0)) nf_gone_witness (nf_init (nat_of_int 0)) in
         Printf.printf "witness newfb_disconnect returned=%s sendmutex_owner=%d client_thread_pc=%d ok=%s\n"
           (b2s (int_of_nat (nf_pcA n0) = 8)) (int_of_nat (nf_send n0)) (int_of_nat (nf_pcB n0)) (b2s (nf_ok n0));
@@ -70,6 +75,9 @@ let () =
         let m = nat_of_int (int_of_string mode) in
         let s = run (nf_step (fixed = "1") m) (sched_of ws) (nf_init m) in
         Printf.printf "nf final=%s ok=%s send=%d bad_unlock=%s\n" (b2s (nf_final s)) (b2s (nf_ok s)) (int_of_nat (nf_send s)) (b2s (nf_badunlock s))
+    | "rc" :: fixed :: early :: ws ->
+        let s = run (rc_step (fixed = "1") (early = "1")) (sched_of ws) rc_init in
+        Printf.printf "rc final=%s reclaimed=%d joined=%d detached=%s bad=%s\n" (b2s (rc_final s)) (int_of_nat (rc_reclaimed s)) (int_of_nat (rc_joined s)) (b2s (rc_detached s)) (b2s (rc_bad s))
     | "iw" :: waits :: ws ->
         let s = run (iw_step (waits = "1")) (sched_of ws) iw_init in
         Printf.printf "iw final=%s uaf=%s freed0=%s freed1=%s\n" (b2s (iw_final s)) (b2s (iw_uaf s)) (b2s (iw_fr0 s)) (b2s (iw_fr1 s))
